@@ -26,7 +26,7 @@ def scenario(rnd, cid):
         for _ in range(k):
             ops.append("l " + tg.hx(line(cid, n[0], size)))
             n[0] += 1
-    kind = rnd.choice(["healthy", "healthy", "refuse", "blackhole", "slow", "closemid", "closemid", "closemid-idle"])
+    kind = rnd.choice(["healthy", "healthy", "refuse", "blackhole", "slow", "closemid", "closemid", "closemid-idle", "repoint", "repoint"])
     iobuf = rnd.choice([64, 1000, 2000000])
     connbuf = rnd.choice([1, 10, 1000])
     flush = rnd.choice([1, 5, 20])
@@ -35,6 +35,18 @@ def scenario(rnd, cid):
         ops.append("phase start")
         send(rnd.choice([50, 500, 3000]), pace=rnd.choice([0, 0, 20]))
         ops.append("phase healthy")
+    elif kind == "repoint":
+        # the operator re-points the destination (modDest addr=...) to an endpoint that never answers the connection attempt,
+        # or changes its filter, while traffic keeps flowing: hand-offs must not wait for the admin operation
+        ops.append("cfg 0 %d %d %d 0 30 healthy" % (iobuf, connbuf, flush))
+        ops.append("phase start")
+        send(rnd.choice([50, 300]), pace=rnd.choice([0, 20]))
+        ops.append("silent")
+        for _ in range(rnd.choice([1, 2])):
+            ops.append("update " + rnd.choice(["addr=silent", "addr=silent prefix=m.", "prefix=m. addr=silent"]))
+            ops.append("sleep %d" % rnd.choice([0, 5, 100]))
+            send(rnd.choice([50, 300]), pace=rnd.choice([0, 20]))
+        ops.append("phase repoint")
     elif kind == "refuse":
         ops.append("cfg 0 %d %d %d 0 30 refuse" % (iobuf, connbuf, flush))
         ops.append("sleep 60")
@@ -79,8 +91,8 @@ def monitor(lines, out):
     if any(o == "handoff-stalled" for o in out):
         return "handing a line to the destination blocked for more than 5 s (ingestion stalled)"
     for o in out:
-        if o.startswith("cfgerr") or o.startswith("uperr"):
-            return o
+        if o.startswith("cfgerr") or o.startswith("uperr") or o == "silent false":
+            return "harness: " + o
     phases = [parse_phase(o) for o in out if o.startswith("phase ")]
     mh = [int(o.split()[1]) for o in out if o.startswith("maxhandoff_ms")]
     if mh and mh[0] > 1500:
